@@ -119,6 +119,14 @@ def replay_case_file(E, prop, path):
     import json
     c = json.load(open(path))
     k = KERNELS[c["kernel"]]
+    if c.get("kind") == "prefix":       # C06 relational case: the function on the whole series and on its first `cut` elements
+        C = c["cut"]
+        full = replay.native(k.native, c["window"], c["min_periods"], c["x"], c["y"])
+        pre = replay.native(k.native, c["window"], c["min_periods"], c["x"][:C], c["y"][:C] if c["y"] else None)
+        differs = isinstance(full, tuple) != isinstance(pre, tuple) or (not isinstance(full, tuple) and any(
+            not (pre[j] == full[j] or (pre[j] != pre[j] and full[j] != full[j])) for j in range(C)))
+        log(("REPRODUCED " if differs else "passes ") + f"{path}: first {C} elements give {pre}, whole series gives {full}")
+        return 1 if differs else 0
     got = replay.native(k.native, c["window"], c["min_periods"], c["x"], c["y"])
     if isinstance(got, tuple):
         log(f"REPRODUCED {path}: native run panics: {got[1]}")
